@@ -188,7 +188,12 @@ def r_extension_filter(r, prog):
         r.finding('file-without-extension-check', push[0].span, 'a path can join the file list without passing is_file() && is_slice_file()')
     # is_slice_file compares the extension with "slice"
     g = prog.fn(FU + 'is_slice_file')
-    if [c for c in g.calls() if c.name() == 'extension'] and 'slice' in prog.literals_of(g):
+    fam_g = [g] + [x for x in prog.fns.values() if x.path.startswith(g.path + '::{closure')]
+    loose = [c.name() for x in fam_g for c in x.calls() if c.name() in ('eq_ignore_ascii_case', 'to_lowercase', 'to_ascii_lowercase', 'to_uppercase', 'to_ascii_uppercase',
+                                                                       'starts_with', 'ends_with', 'contains', 'find', 'trim', 'trim_end_matches') and not x.blocks[c.bb].get('cleanup')]
+    if loose:
+        r.finding('extension-test-loose', g.span, 'is_slice_file compares the extension through %s: on a case-sensitive file system other files (x.SLICE, notes.Slice) are taken for Slice files, and sources with such names are no longer refused' % sorted(set(loose)))
+    elif [c for c in g.calls() if c.name() == 'extension'] and 'slice' in prog.literals_of(g):
         r.ok('is_slice_file tests extension() == "slice"')
     else:
         r.finding('extension-test', g.span, 'is_slice_file does not compare Path::extension() with "slice"')
